@@ -34,6 +34,20 @@ func (e *Eval) blockingOb(fr *Frame, in ssa.Instruction, kind string, st *State,
 
 func shortFn(fn *ssa.Function) string { return relName(fn) }
 
+// constFunc: the function a function-valued package variable always holds
+// (constglobal name = func:F, checked on the IR by ConstGlobalResult).
+func (e *Eval) constFunc(g *ssa.Global) *ssa.Function {
+	for _, cg := range e.p.cs.ConstGlobals {
+		if cg.Name == g.Name() && g.Pkg != nil && cg.Pkg == g.Pkg.Pkg.Name() && strings.HasPrefix(cg.Value, "func:") {
+			if f, ok := g.Pkg.Members[strings.TrimPrefix(cg.Value, "func:")].(*ssa.Function); ok {
+				e.usedConstGlobals = true
+				return f
+			}
+		}
+	}
+	return nil
+}
+
 // instr executes one instruction; returns the new reach, state and whether
 // the block ended here (return / panic).
 func (e *Eval) instr(fr *Frame, in ssa.Instruction, st *State, cur string) (string, *State, bool) {
@@ -106,6 +120,13 @@ func (e *Eval) instr(fr *Frame, in ssa.Instruction, st *State, cur string) (stri
 			t := x.X.Type().Underlying().(*types.Pointer).Elem()
 			if v.A == nil {
 				e.nilCheck(fr, in, cur, v)
+			}
+			if g, isG := x.X.(*ssa.Global); isG {
+				// a package variable declared `constglobal name = func:F`
+				if f := e.constFunc(g); f != nil {
+					fr.vals[x] = Val{Fn: f, T: "1"}
+					break
+				}
 			}
 			r := c.Define(fr.prefix+x.Name(), c.Sort(t), e.load(st, v, t))
 			e.noteVal(t, r)
